@@ -30,13 +30,13 @@ def classify(c):
 
 REPS = ([wire.NULL, wire.TRUE, wire.FALSE] + [wire.i(x) for x in (0, 1, -1, wire.I64_MIN)] +
         [wire.d(x) for x in (0.0, -0.0, 1.0, float("nan"), float("inf"), 5e-324)] +
-        [wire.c(x) for x in ("\0", "a", "0")] + [wire.b(x) for x in (0, 1, 48)] +
+        [wire.c(x) for x in ("\0", "a", "0", "一", "Ā", "✀", "\U00010000")] + [wire.b(x) for x in (0, 1, 48)] +
         [wire.s(x) for x in ("", "a", "0", " ", "\0")] +
         [wire.a(), wire.a(wire.a()), wire.a(wire.NULL), wire.a(wire.i(0)), wire.m(), wire.m((wire.i(0), wire.i(0))), wire.m((wire.NULL, wire.NULL))] +
         wire.OTHERS)
 
 
-SRC_REPS = ["null", "true", "false", "0", "1", "-1", "0.0", "-0.0", "1.0", "1e-320", "5e-324", "char(0)", "'a'", "'0'", "byte(0)", "byte(1)", "byte(48)",
+SRC_REPS = ["null", "true", "false", "0", "1", "-1", "0.0", "-0.0", "1.0", "1e-320", "5e-324", "2.5e-16", "(1e308 * 10 - 1e308 * 10)", "char(0)", "'a'", "'0'", "'一'", "char(256)", "char(9984)", "char(65536)", "byte(0)", "byte(1)", "byte(48)",
             '""', '"a"', '"0"', '" "', "[]", "[[]]", "[null]", "[0]", "map {}", "map {0: 0}", "map {null: null}", "len", "fn() { 1 }", "(1 / 1.0 - 1)", "[1][0] - 1", "str(0)", "chars(\"\")"]
 
 
@@ -54,9 +54,25 @@ def position_program(v, w):
             "if v && w { 20 } else { 21 }\n")
 
 
+NUM_REPS = ["0", "1", "-1", "0.0", "-0.0", "1.5", "1e-320", "2.5e-16", "(1e308 * 10 - 1e308 * 10)", "(1e308 * 10)", "9223372036854775807", "byte(0)", "byte(7)"]
+
+
+def negated_comparison_program(v, w):
+    """`!` applied directly to a comparison (the compiler must not fold it into the opposite comparison: NaN)"""
+    return ("let obs = [];\nfn probe(x) { push(obs, x); x }\n"
+            f"let v = {v};\nlet w = {w};\n"
+            "push(obs, [!(v > w), !(v < w), !(v >= w), !(v <= w), !(v == w), !(v != w)]);\n"
+            "if !(v > w) { push(obs, 1); } else { push(obs, 2); }\n"
+            "if !(v <= w) { push(obs, 3); } else { push(obs, 4); }\n"
+            "let n = 0;\nwhile !(v < w) { n = n + 1; if n > 1 { break; } }\npush(obs, n);\n"
+            "let r1 = !(v >= w) && probe(5);\nlet r2 = !(v > w) || probe(6);\npush(obs, [r1, r2]);\n"
+            "!(v == w)\n")
+
+
 def cases(ctx):
     out = []
     srcs = [position_program(v, w) for v in SRC_REPS for w in SRC_REPS]
+    srcs += [negated_comparison_program(v, w) for v in NUM_REPS for w in NUM_REPS]
     for l, s in zip(lang_lines(ctx, srcs), srcs):
         out.append(Case(l, ("positions",), extra={"src": s}))
     for v in REPS:
